@@ -102,6 +102,8 @@ class C17(Base):
         if rng.random() < 0.25:
             for _ in range(rng.choice([1, 1, 2])):
                 ops.insert(rng.randrange(len(ops) + 1), "pf")       # prefetch at any point of the history
+        if rng.random() < 0.2:
+            ops.insert(rng.randrange(len(ops) + 1), "sx")           # a (refused) sync request in between
         return "cache " + ";".join([header("a", k, needs, end)] + ops)
 
     def gen_fair(self, rng, maxlen, big=False, joined=False):
@@ -190,6 +192,8 @@ class C17(Base):
                             if w2 not in runq and w2 not in done:
                                 runq.append(w2)
                         srcw = None
+        if rng.random() < 0.2:
+            ops.insert(rng.randrange(len(ops) + 1), "sx")           # a (refused) sync request while others are parked
         return "cache " + ";".join([header("a", k, needs, end, joined)] + ops)
 
     def gen_sync(self, rng, maxreq):
@@ -287,6 +291,14 @@ class C17(Base):
                     depth[c], polled[c], waiting[c] = d, False, False
                 elif o != "busy":
                     return "start on busy consumer answered %s" % o
+                continue
+            if p[0] == "sx":
+                mm = re.match(r"^sx:refused#(\d+)\.(\d+)!(.*)$", o)
+                if not mm:
+                    return "a sync request on an asynchronous set answered %s (must be refused)" % o
+                if int(mm.group(1)) != polls or int(mm.group(2)) != pulls or mm.group(3) != "-":
+                    return ("a refused sync request touched the source or the wakers (polls %d->%s, bundles %d->%s, wakes %s)"
+                            % (polls, mm.group(1), pulls, mm.group(2), mm.group(3)))
                 continue
             if p[0] == "pf":
                 # prefetch forwards to the source's (empty) hook: no bundle generated, source not asked, nobody woken
